@@ -133,6 +133,15 @@ struct Res {
   std::vector<double> f, K;
   double se = 0;
 };
+// plane stress hypotheses (kind "ps", behaviour VfHyperPS): the axial component of the deformation gradients is not passed to the
+// behaviour (0, as a solver does) but through the state variable AxialStrain (beginning of the step) and the material property
+// ezz1 (end of the step); PS.iv1 is the axial strain returned by the last call
+struct PlaneStressSetting {
+  bool on = false;
+  int axis = 2;   // diagonal component that carries the axial stretch (zz: 2 in plane stress, 1 in the 1D ordering rr zz tt)
+  double iv1 = 0;
+};
+static PlaneStressSetting PS;
 // one call of the behaviour. k0: K[0]; sm: K[1]; tk: K[2]; s0: initial stress in the storage of measure sm; inc: incremental form
 static Res call(Beh& b, const M3& F0, const M3& F1, const std::vector<double>& s0, const int sm, const int tk, const double k0,
                 const double lam, const double mu, const int inc, const double se0 = 0) {
@@ -143,7 +152,14 @@ static Res call(Beh& b, const M3& F0, const M3& F1, const std::vector<double>& s
   }
   for (size_t i = 0; i < s0.size() && i < 9; ++i) f0[i] = s0[i];
   std::vector<double> mp = {lam, mu, double(inc)};
-  double iv0 = 0, iv1 = 0, se0v = se0, se1 = SENT, de0 = 0, de1 = 0, rho = 1, T0 = 293.15, T1 = 293.15, rdt = 1, sos = 0;
+  double iv0 = 0, iv1 = 0;
+  if (PS.on) {
+    const double a0 = static_cast<double>(F0[PS.axis][PS.axis]), a1 = static_cast<double>(F1[PS.axis][PS.axis]);
+    g0[PS.axis] = g1[PS.axis] = 0;
+    iv0 = iv1 = (a0 * a0 - 1) / 2;
+    mp.push_back((a1 * a1 - 1) / 2);
+  }
+  double se0v = se0, se1 = SENT, de0 = 0, de1 = 0, rho = 1, T0 = 293.15, T1 = 293.15, rdt = 1, sos = 0;
   Res r;
   r.K.assign(100, SENT);
   r.K[0] = k0;
@@ -159,6 +175,7 @@ static Res call(Beh& b, const M3& F0, const M3& F1, const std::vector<double>& s
   d.s0 = {g0.data(), f0.data(), &rho, mp.data(), &iv0, &se0v, &de0, &T0};
   d.s1 = {g1.data(), f1.data(), &rho, mp.data(), &iv1, &se1, &de1, &T1};
   r.ret = b.f(&d);
+  PS.iv1 = iv1;
   r.f = f1;
   r.se = se1;
   ++b.ncalls;
@@ -504,6 +521,28 @@ static void treatCycle(Beh& b, const Json& c, Json& r, const bool isgl) {
   if (isgl) r.set("simpson48", simpson).set("w4", w4).set("tight", Json(tight));
 }
 
+// kind "ps": the three stress measures (no stiffness requested, total form of the law) and the axial strain written back
+static void treatPlaneStress(Beh& b, const Json& c, Json& r) {
+  const Material m{2.0 * double(c["l2"].asInt()), double(c["mu"].asInt())};
+  const M3 F0 = fromRowMajor(c["F0"].asInts()), F1 = fromRowMajor(c["F1"].asInts());
+  const ld J1 = det3(F1);
+  PS.on = true;
+  PS.axis = b.N == 1 ? 1 : 2;
+  Json calls = Json::array();
+  for (int sm = 0; sm < 3; ++sm) {
+    const auto res = call(b, F0, F1, zeros(), sm, 0, 0., m.lam, m.mu, 0);
+    bool tight = true;
+    Json o = Json::object();
+    o.set("sm", Json(sm)).set("ret", Json(res.ret));
+    o.set("v", intsOf(stressToM3(res.f, sm, b.N), sm == 0 ? J1 : ld(1), tight)).set("tight", Json(tight));
+    const auto e = vp::exact(2 * PS.iv1, 1.0, 1e-8 * std::max(1.0, std::fabs(2 * PS.iv1)));
+    o.set("ezz2", Json(e.q)).set("etight", Json(e.tight));
+    calls.push(o);
+  }
+  PS.on = false;
+  r.set("calls", calls);
+}
+
 int main(int argc, char** argv) {
   if (argc < 4) return 2;
   void* lib = dlopen(argv[1], RTLD_NOW);
@@ -527,6 +566,8 @@ int main(int argc, char** argv) {
     try {
       if (kind == "cycle")
         treatCycle(b, c, r, beh == "VfHyperGL");
+      else if (kind == "ps")
+        treatPlaneStress(b, c, r);
       else
         treatPoint(b, c, r, kind == "gl");
     } catch (std::exception& e) {
